@@ -250,4 +250,56 @@ theorem nonStuck_of_docEnabled (c : Cfg) (o : POpts) (hG : GenStrip c o) (s : Li
     rw [heIi] at hnodp
     exact hexpN eI zI heI heIi heIc.2 (hnodpE hnodp)
 
+/-! ### executable form of `PartEnabled` (for concrete inputs) -/
+
+instance (fl : SepFlags) (a b d : Bool) : Decidable (FlagsEnable fl a b d) := by
+  unfold FlagsEnable; infer_instance
+
+instance (c : Cfg) (fl : SepFlags) (s : List Nat) (i : Nat) : Decidable (DocEnabledAt c fl s i) := by
+  unfold DocEnabledAt; infer_instance
+
+def partEnabledB (c : Cfg) (k : Comp) (r : Nat) (s : List Nat) (a z : Nat) : Bool :=
+  decide (a ≤ z) && decide (z ≤ s.length) &&
+  ((List.range (z - a)).all fun t =>
+    match s[a + t]? with
+    | some x =>
+      (c.isSep x || ((charToDigit x r).isSome && c.isDigit x)) &&
+        (!c.isSep x || decide (DocEnabledAt c (c.sepFlags k) s (a + t)))
+    | none => false) &&
+  (match s[z]? with
+   | some x => !c.isSep x && (charToDigit x r).isNone && !c.isDigit x
+   | none => true) &&
+  (match getPrev s a with
+   | some x => !c.isDigit x && !c.isSep x
+   | none => true)
+
+theorem partEnabled_of_B (c : Cfg) (k : Comp) (r : Nat) (s : List Nat) (a z : Nat)
+    (h : partEnabledB c k r s a z = true) : PartEnabled c k r s a z := by
+  unfold partEnabledB at h
+  simp only [Bool.and_eq_true, decide_eq_true_eq] at h
+  obtain ⟨⟨⟨⟨h1, h2⟩, h3⟩, h4⟩, h5⟩ := h
+  have hbody : ∀ i, a ≤ i → i < z → ∀ x, s[i]? = some x →
+      (c.isSep x = true ∨ ((charToDigit x r).isSome = true ∧ c.isDigit x = true)) ∧
+      (c.isSep x = true → DocEnabledAt c (c.sepFlags k) s i) := by
+    intro i hai hiz x hx
+    have := List.all_eq_true.mp h3 (i - a) (List.mem_range.mpr (by omega))
+    have e : a + (i - a) = i := by omega
+    rw [e, hx] at this
+    simp only [Bool.and_eq_true, Bool.or_eq_true, Bool.not_eq_true', decide_eq_true_eq] at this
+    refine ⟨this.1, ?_⟩
+    intro hs
+    rcases this.2 with h | h
+    · rw [hs] at h; cases h
+    · exact h
+  refine ⟨⟨h1, h2⟩, fun i hai hiz x hx => (hbody i hai hiz x hx).1, ?_, ?_,
+    fun i hai hiz x hx hs => (hbody i hai hiz x hx).2 hs⟩
+  · intro x hx
+    rw [hx] at h4
+    simp only [Bool.and_eq_true, Bool.not_eq_true', Option.isNone_iff_eq_none] at h4
+    exact ⟨h4.1.1, h4.1.2, h4.2⟩
+  · intro x hx
+    rw [hx] at h5
+    simp only [Bool.and_eq_true, Bool.not_eq_true'] at h5
+    exact h5
+
 end LexVerif.Proof.Sep
